@@ -35,6 +35,30 @@ def c12(replay_case=None):
                 out.drift.append("cache protocol: %s at step %d of %s" % (c["verdict"], c["at"], c["name"]))
         for step, reply, cause in c["nontransparent"]:
             out.fail("C12:not-transparent:" + reply, c["name"] + " @step %d" % step, rep, origin="det", facts={"cause:" + cause})
+    hs = st["hgraph"]
+    if not all(hs["controls_violated"]):
+        raise MachineryFailure("control failed: HintCache's reference / pre-repair machines must each violate their invariant: %s" % hs["controls_violated"])
+    for c in r["hint_traces"]:
+        # the compiled error hints (.pgec): same two directions on HintCache.tla
+        out.count()
+        name = "hints: " + c["name"]
+        if c["verdict"] == "ok":
+            out.cov["traces_validated_against_impl"] += 1
+        if sum(1 for e in c["trace"] if e["act"] == "DoConstruct") >= 2 or any(e["act"] in ("DoCrash", "DoEditHints") or (e["act"] == "DoEdit" and e["arg"] != "root") for e in c["trace"]):
+            out.nontrivial(name)
+            out.sample({"history": name, "real_replies": [e["reply"] for e in c["trace"]], "hints_file_after": [e["pst"] + ":" + e["writer"] for e in c["trace"]]})
+        rep = {"kind": "hint-cache-history", "name": name, "trace": c["trace"], "tlc": {"verdict": c["verdict"], "at": c["at"], "nontransparent": c["nontransparent"]}}
+        if c["verdict"] != "ok":
+            bad = c["trace"][c["at"] - 1] if 0 < c["at"] <= len(c["trace"]) else None
+            if bad and bad["act"] == "DoConstruct" and bad["reply"] != "hints-fresh":
+                out.fail("C12:hints-not-transparent:" + bad["reply"], name, rep, origin="det", facts={"cause:not-explained-by-the-machine"})
+            elif bad and bad["act"] == "DoConstruct":
+                out.drift.append("hint cache protocol: %s at step %d of %s (real: %s)" % (c["verdict"], c["at"], name, bad))
+                out.fail("C12:hints-file-after-construction", name, rep, origin="det", facts={"cause:not-explained-by-the-machine"})
+            else:
+                out.drift.append("hint cache protocol: %s at step %d of %s" % (c["verdict"], c["at"], name))
+        for step, reply, cause in c["nontransparent"]:
+            out.fail("C12:hints-not-transparent:" + reply, name + " @step %d" % step, rep, origin="det", facts={"cause:" + cause})
     for c in r["roundtrip"]:
         out.count()
         out.cov["traces_validated_against_impl"] += 1
